@@ -10,10 +10,18 @@ META = dict(
                 "length 3/4 over three small alphabets, plus random 15-18 call sequences over 6 names with chains up to 6 hops, "
                 "cycles, remainders, all options) are executed on the real NewNameSystem over an offline in-memory value "
                 "store; every call's result, the stored records' sequence numbers and the resolver cache are logged and the "
-                "log is validated as a behaviour of the model by TLC (TraceNamesys)."),
+                "log is validated as a behaviour of the model by TLC (TraceNamesys).  Concurrent publishes: the model has "
+                "the two-step publisher (read last / write new inside a per-name critical section, value-store put outside) "
+                "and TLC proves the sequence properties for the records in the order the datastore and the value store see "
+                "them; TLC-generated control sequences run 2-3 overlapping ns.Publish calls (same / different keys and "
+                "values, explicit sequence numbers) through gated datastore / value-store wrappers that hold a call "
+                "before its datastore Put and before its value-store Put, and the log of the store operations must be a "
+                "behaviour of the model (each record put = the sequence rule applied to the last record at that moment)."),
     level_note=("Trusted: offline router + kad-dht value store + ipns record validation, hashicorp LRU; harness projection "
                 "(fixed ed25519 keys / CIDs, durations in hours, logical clock = shifting cache entries' EOL); calls are "
-                "sequential (no concurrent publish/resolve); DNSLink hops not covered."),
+                "sequential except the concurrent-publish family (publishes overlap each other, never a resolve; resolver "
+                "cache off there); how much overlap is reached depends on a bounded wait for the calls to park (goroutine "
+                "states from runtime.Stack), the verdict does not; DNSLink hops not covered."),
     technique="TLA+ model; TLC-generated call sequences driven into the code; recorded logs validated by a TLA+ trace spec (TLC)",
 )
 
@@ -86,12 +94,15 @@ def validate_parallel(ctx, recs, jobs, label):
 
 def run(ctx):
     q = ctx.quick
-    ctx.assumptions += ["calls are sequential; the value store is the offline router over an in-memory datastore",
+    ctx.assumptions += ["calls are sequential, except overlapping publishes (2-3 calls held at the datastore Put / value-store Put); "
+                        "the value store is the offline router over an in-memory datastore",
                         "record EOL (48 h) is never reached; durations are whole hours",
                         "all names are IPNS keys (no DNSLink hop)"]
     ctx.cov["rule"] = ("call sequences = all sequences of length 3 (4 in the thorough tier for the one-name core) over three "
                        "alphabets (read-your-publish core, publisher options, two-name chains with eviction) x cache "
-                       "configurations, plus TLC-simulated 15-18 call sequences over 6 names; each is one run of the real "
+                       "configurations, plus TLC-simulated 15-18 call sequences over 6 names, plus control sequences of 2-3 "
+                       "overlapping publishes (all of the 1-name/2-value core, TLC-simulated ones over 2 names, 3 values, "
+                       "explicit sequence numbers); each is one run of the real "
                        "code whose log must be accepted by TraceNamesys. non-trivial = run with >= 2 successful publishes "
                        "and a resolve that followed a link or hit the cache")
     # ---------------------------------------------------------------- M and G generators (independent TLC runs, concurrently)
@@ -110,6 +121,19 @@ def run(ctx):
             ctx.broken("as-built model (Dev_C29_PublishCacheKey) does not violate ReadYourPublish: %s" % r["violated"])
         return r
 
+    def m_conc():
+        # the two-step publisher: critical section => sequence properties in datastore / value-store order
+        return ctx.tlc_mc(SPEC, "Namesys.tla", "MCNamesysConc.cfg" if q else "MCNamesysConc3.cfg", timeout=2400,
+                          deadlock=False, workers=4 if q else 8)
+
+    def m_nolock():
+        # sanity: without the critical section the model violates the datastore-order sequence property
+        r = ctx.tlc_mc(SPEC, "Namesys.tla", "MCNamesysNoLock.cfg", timeout=1200, deadlock=False, expect_violation="any",
+                       workers=2)
+        if "DsSeqIncrementsOnChange" not in str(r["violated"]):
+            ctx.broken("model without the publisher's critical section does not violate DsSeqIncrementsOnChange: %s" % r["violated"])
+        return r
+
     def gen(cfg, **kw):
         return lambda: ctx.tlc_gen(SPEC, "GenNamesys.tla", cfg, timeout=2400, **kw)
     ctx.specdir(SPEC)
@@ -118,7 +142,10 @@ def run(ctx):
             (gen("GenNamesysPubSim.cfg", simulate=10, depth=1500) if q else gen("GenNamesysPub.cfg", workers=4)),
             (gen("GenNamesysChainSim.cfg", simulate=10, depth=2500) if q else gen("GenNamesysChain.cfg", workers=4)),
             gen("GenNamesysSim.cfg", simulate=6 if q else 80, depth=1000),
-            gen("GenNamesysSim2.cfg", simulate=3 if q else 40, depth=1000)]
+            gen("GenNamesysSim2.cfg", simulate=3 if q else 40, depth=1000),
+            gen("GenNamesysConcCore.cfg", workers=2),
+            gen("GenNamesysConcSim.cfg", simulate=2 if q else 40, depth=800),
+            m_conc, m_nolock] + ([] if q else [gen("GenNamesysConc.cfg", workers=4)])
     import time as _t
 
     def staggered(i_f):
@@ -128,13 +155,19 @@ def run(ctx):
         outs = list(ex.map(staggered, enumerate(jobs)))
     if ctx.brokens:
         return
-    d4, pub, chn, sim, sim2 = outs[3:]
+    d4, pub, chn, sim, sim2, ccore, csim = outs[3:10]
+    cbig = [] if q else outs[12]
     # the two large families: quick = TLC-simulated length-4 sequences over the same alphabets; thorough = seeded
     # sample of ALL length-3 sequences.  The one-name core family is always replayed completely.
     k = 600 if q else 4000
     pub = ctx.rng.sample(pub, min(len(pub), k))
     chn = ctx.rng.sample(chn, min(len(chn), k))
-    fams = [("core", d4), ("pub", pub), ("chain", chn), ("sim", sim), ("sim2", sim2)]
+    # concurrent family: the exhaustive core (quick: a seeded half of it), simulated ones, thorough: sample of the 2-name BFS
+    if q:
+        ccore = ctx.rng.sample(ccore, min(len(ccore), 100))
+    cbig = ctx.rng.sample(cbig, min(len(cbig), 3000))
+    conc = ccore + csim + cbig
+    fams = [("core", d4), ("pub", pub), ("chain", chn), ("sim", sim), ("sim2", sim2), ("conc", conc)]
     if any(not f for _, f in fams):
         return
     behs = [b for _, f in fams for b in f]
@@ -145,8 +178,14 @@ def run(ctx):
     if rc != 0 or not recs or recs[-1].get("ev") != "End" or recs[-1].get("n") != len(behs):
         ctx.broken("record driver died or was incomplete (rc=%s): %s" % (rc, out[-1500:]))
         return
+    ctx.log("concurrent family: %d runs, settle fallbacks %s" % (recs[-1].get("conc_runs", 0), recs[-1].get("unsettled")))
+    for d in recs[-1].get("unsettled_diag") or []:
+        ctx.log("  settle fallback: " + d[:600])
     recs = recs[:-1]
     for r in recs:
+        if r["ev"] == "PWriteFailed" or str(r.get("err", "")).startswith("other:") and r["ev"] in ("PRoute", "PEnd"):
+            ctx.broken("store wrapper saw an unexpected error (harness environment): %s" % json.dumps(r)[:300])
+            return
         if r.get("quiet") is False:
             ctx.broken("goroutines of a call did not end within 5 s (harness cannot order the log): %s" % json.dumps(r)[:300])
             return
@@ -159,6 +198,18 @@ def run(ctx):
         elif r["ev"] == "Publish":
             cur["pubs"] += r["ok"]
             cur["key"].append(["P", r["n"], r["v"], r["sq"], r["ok"]])
+        elif r["ev"] in ("PRead", "PWrite", "PRoute", "PEnd"):
+            cur["key"].append([r["ev"], r["p"], r.get("rec"), r.get("ok")])
+            if r["ev"] == "PWrite":
+                # non-trivial concurrent run: a call stored while another call had begun and not yet stored
+                cur.setdefault("wr", set()).add(r["p"])
+                if any(p not in cur["wr"] for p in cur.get("beg", ())):
+                    cur["over"] = True
+            if r["ev"] == "PEnd" and cur.get("over"):
+                ctx.nontrivial(cur["key"])
+        elif r["ev"] == "PBegin":
+            cur.setdefault("beg", set()).add(r["p"])
+            cur["key"].append(["B", r["p"], r["n"], r["v"], r["sq"]])
         elif r["ev"] == "Resolve":
             cur["key"].append(["R", r["q"], r["res"]])
             if r["res"]["err"] != "notfound" and cur["pubs"] >= 2 and (r["cache"] or r["res"]["path"]["rest"] != r["q"]["rest"]
@@ -196,20 +247,40 @@ def run(ctx):
             ch.extend(dict(e) for e in run_)
         cand = [i for i, r in enumerate(ch) if r["ev"] == "Resolve" and r["res"]["err"] == "" and r["res"]["path"]["ns"] == "ipfs"]
         cand2 = [i for i, r in enumerate(ch) if r["ev"] == "Publish" and r["ok"]]
-        for label, idxs, mut in (("resolve-result", cand, lambda r: r.__setitem__("res", dict(r["res"], path=dict(
-                r["res"]["path"], root=("B" if r["res"]["path"]["root"] != "B" else "A"))))),
-                                 ("publish-seq", cand2, lambda r: r.__setitem__("rt", {k: (dict(v, seq=v["seq"] + 1) if k == r["n"] else v)
-                                                                                       for k, v in r["rt"].items()}))):
+        # concurrent runs: a call's datastore Put that changed the value stored by ANOTHER call of the same run gets the
+        # previous record's sequence number ("value changes without a sequence increase", what a stale read produces)
+        ch3, cand3 = [], []
+        for run_ in [x for x in runs if sum(e["ev"] == "PWrite" for e in x) >= 2][:40]:
+            prev = {}
+            for e in run_:
+                if e["ev"] == "PWrite":
+                    pe = prev.get(e["n"])
+                    if pe and pe["p"] != e["p"] and pe["rec"]["val"] != e["rec"]["val"] and e["rec"]["seq"] == pe["rec"]["seq"] + 1:
+                        cand3.append(len(ch3))
+                    prev[e["n"]] = e
+                ch3.append(dict(e))
+
+        def neg(job):
+            k, label, chunk, idxs, mut = job
             if not idxs:
-                ctx.broken("negative control %s: no candidate event" % label)
-                continue
+                return label, None, None
             i = idxs[len(idxs) // 2]
-            bad = [dict(r) for r in ch]
+            bad = [dict(r) for r in chunk]
             mut(bad[i])
             devsets = [ctx.open_devs()] if ctx.open_devs() else [[]]
-            r3 = _run_chunk(ctx, 900 + len(label), bad, devsets + [[]])
-            if r3["ok"] or r3["hwm"] != i:
-                ctx.broken("negative control %s: corrupted log not rejected where expected (ok=%s hwm=%s want=%s)" %
-                           (label, r3["ok"], r3["hwm"], i))
-            else:
-                ctx.log("negative control %s: rejected at event %d as expected" % (label, i + 1))
+            return label, i, _run_chunk(ctx, 900 + k, bad, devsets + [[]])
+        negs = [(0, "resolve-result", ch, cand, lambda r: r.__setitem__("res", dict(r["res"], path=dict(
+                    r["res"]["path"], root=("B" if r["res"]["path"]["root"] != "B" else "A"))))),
+                (1, "publish-seq", ch, cand2, lambda r: r.__setitem__("rt", {k: (dict(v, seq=v["seq"] + 1) if k == r["n"] else v)
+                                                                            for k, v in r["rt"].items()})),
+                (2, "concurrent-write-seq", ch3, cand3, lambda r: r.__setitem__("rec", dict(r["rec"], seq=r["rec"]["seq"] - 1)))]
+        ctx.open_devs()
+        with cf.ThreadPoolExecutor(max_workers=len(negs)) as ex:
+            for label, i, r3 in ex.map(neg, negs):
+                if r3 is None:
+                    ctx.broken("negative control %s: no candidate event" % label)
+                elif r3["ok"] or r3["hwm"] != i:
+                    ctx.broken("negative control %s: corrupted log not rejected where expected (ok=%s hwm=%s want=%s)" %
+                               (label, r3["ok"], r3["hwm"], i))
+                else:
+                    ctx.log("negative control %s: rejected at event %d as expected" % (label, i + 1))
